@@ -357,6 +357,22 @@ pub fn run_impl(c: &Case) -> Vec<(String, String)> {
                             }
                             None => {}
                         }
+                        // ... and, independently of the piece-level operator (which may be the faulty one), GROSSLY: the value of
+                        // the result is f(x) +- g(x); tolerance 1% of the magnitudes of the two evaluations (the same pieces
+                        // with every number replaced by its absolute value), so only an error of the size of the data counts
+                        let (a, b) = (f2.evaluate(x), g2.evaluate(x));
+                        let wantv = if sub { a - b } else { a + b };
+                        if a.is_finite() && b.is_finite() && wantv.is_finite() && got.is_finite() && x.is_finite() && x.abs() < 1e100 {
+                            let mag = |p: &Piecewise<T>| -> f64 {
+                                let q = Piecewise { segments: p.segments.iter().map(|s| Segment { end: s.end, poly: T::from_nums(&s.poly.to_nums().iter().map(|v| v.abs()).collect::<Vec<_>>()) }).collect() };
+                                q.evaluate(x).abs()
+                            };
+                            let scale = a.abs() + b.abs() + mag(&f2) + mag(&g2);
+                            if scale.is_finite() && (got - wantv).abs() > 1e-2 * scale + 1e-280 {
+                                ok = false;
+                                break;
+                            }
+                        }
                     }
                 }
                 if ok { "1".to_string() } else { "0".to_string() }
